@@ -201,6 +201,21 @@ class SymLinkSet(object):
                 self.ndead += 1
         return r
 
+    def __bool__(self):
+        """Is any link dead at all?  (One solver-decided branch over the
+        booleans of every link of every live chip.)"""
+        if self.fixed:
+            return True
+        if self.K <= 0:
+            return False
+        keys = [(x, y, l) for x in range(self.w) for y in range(self.h)
+                if (x, y) not in self.dead_chips for l in range(6)]
+        self.ensure(keys)
+        states = [self.dead(*k) for k in keys]
+        if any(d is True for d in states):
+            return True
+        return bool(sor(*[d for d in states if d is not False]))
+
     def copy(self):
         return self
 
@@ -365,7 +380,7 @@ def _strongly_connected(chips, w, h, deadset):
     return sand(*conds)
 
 
-KINDS = ("cores1", "cores2", "endpoint", "none")
+KINDS = ("cores1", "cores2", "endpoint", "endpoint0", "none")
 
 
 def h_route(ctx, w, h, torus, K, radius, nsinks, deadchip="none", src=None,
@@ -446,6 +461,11 @@ def h_route(ctx, w, h, torus, K, radius, nsinks, deadchip="none", src=None,
             allocations[v] = {core_res: slice(5, 6)}
             constraints.append(RouteEndpointConstraint(v, Routes.north))
             expect[v] = {2}
+        elif kd == "endpoint0":
+            # ... on the east link, whose value is 0
+            allocations[v] = {}
+            constraints.append(RouteEndpointConstraint(v, Routes.east))
+            expect[v] = {0}
         else:
             allocations[v] = {}
             expect[v] = {None}
@@ -622,7 +642,7 @@ def h_wrap(ctx, w, h, K, deadchip):
     ctx.prove(same, "wrap-stub-differs")
 
 
-PATTERNS = (("cores2", "endpoint", "none"), ("none", "cores1", "endpoint"),
+PATTERNS = (("cores2", "endpoint", "none"), ("none", "cores1", "endpoint0"),
             ("endpoint", "cores2", "cores1"), ("cores1", "none", "cores2"))
 
 
